@@ -4,6 +4,7 @@ import Props.C05
 import Proofs.BrokerFan
 import Proofs.BrokerB1
 import Proofs.BrokerB5Wf
+import Proofs.BrokerOut
 /-
   Props/C06.lean — property C06: a published message reaches exactly the sessions holding a
   matching subscription, one copy each, intact, retain flag cleared, QoS capped by the grant of
@@ -11,6 +12,11 @@ import Proofs.BrokerB5Wf
   SUBSCRIBE keeps its own); an unsubscribed filter no longer attracts messages.
   Statements are about `MemoryBackend.Publish` / `applyQOS` / the SUBSCRIBE and UNSUBSCRIBE
   branches of the processor / the dequeuer as modelled in Model/Broker.lean, for EVERY broker state.
+  The QoS is capped TWICE: when the copy is put on the session's queue (`enqueue`, grant in force
+  when the broker processes the publish — `enqueued_copy_capped`, `publish_appends_only_capped`) and
+  again when it is taken off (`delivered_qos`, grant in force then); capping never raises a QoS
+  (`applyQOS_le`), so the delivered QoS is ≤ min(published, grant at publish time) whatever happens
+  to the subscriptions in between (`delivered_capped_by_publish_grant`).
   `Rel2` (Proofs/BrokerFan.lean) is the element-wise relation of two lists of equal length.
 -/
 namespace C06
@@ -23,10 +29,11 @@ def FanRel {κ : Type} (cfg : Cfg) (m : Message) (g : Nat) (e e' : κ × BSess) 
      (enqueue cfg e.2 m g = .ok e'.2) ∨ (enqueue cfg e.2 m g = .full ∧ e.2.active = none ∧ e'.2 = e.2)
    else e'.2 = e.2)
 
-/-- `enqueue` appends exactly one copy to the queue of the message's class and touches nothing else -/
+/-- `enqueue` appends exactly one copy — capped by the session's grant at that moment, `applyQOS` —
+    to the queue of the message's class (chosen by the PUBLISHED QoS) and touches nothing else -/
 theorem enqueue_one_copy (cfg : Cfg) (b b' : BSess) (m : Message) (g : Nat) (h : enqueue cfg b m g = .ok b') :
-    (if m.qos = 0 then b'.tempQ = b.tempQ ++ [(g, m)] ∧ b'.storedQ = b.storedQ
-     else b'.storedQ = b.storedQ ++ [m] ∧ b'.tempQ = b.tempQ)
+    (if m.qos = 0 then b'.tempQ = b.tempQ ++ [(g, applyQOS b m)] ∧ b'.storedQ = b.storedQ
+     else b'.storedQ = b.storedQ ++ [applyQOS b m] ∧ b'.tempQ = b.tempQ)
     ∧ b'.subs = b.subs ∧ b'.sess = b.sess ∧ b'.active = b.active :=
   BrokerFan.enqueue_ok cfg b b' m g h
 
@@ -103,6 +110,17 @@ theorem applyQOS_min (b : BSess) (m : Message) (q : Nat) (h : subQos b m.topic =
 theorem applyQOS_none (b : BSess) (m : Message) (h : subQos b m.topic = none) : applyQOS b m = m := by
   unfold applyQOS
   rw [h]
+
+/-- capping never raises the QoS and never touches topic, payload, retain flag — whatever the
+    session's subscriptions are (matching or not) -/
+theorem applyQOS_le (b : BSess) (m : Message) :
+    (applyQOS b m).qos.toNat ≤ m.qos.toNat ∧ (applyQOS b m).topic = m.topic ∧
+    (applyQOS b m).payload = m.payload ∧ (applyQOS b m).retain = m.retain := by
+  cases hq : subQos b m.topic with
+  | none => rw [applyQOS_none b m hq]; exact ⟨Nat.le_refl _, rfl, rfl, rfl⟩
+  | some q =>
+    obtain ⟨a1, a2, a3, a4⟩ := applyQOS_min b m q hq
+    exact ⟨by rw [a1]; exact Nat.min_le_left _ _, a2, a3, a4⟩
 
 /-- the last subscription of one SUBSCRIBE packet naming a filter decides its grant; filters the
     packet does not name keep what they had -/
@@ -182,7 +200,9 @@ theorem delivery_is_capped_head (s s' : BState) (c : ConnId) (x : BConn) (b : BS
 /-- `delivered_qos`: the delivered message is a queued one with topic, payload and retain flag
     intact; its QoS is the lower of the queued QoS and the grant `MatchFirst` finds at that moment —
     by `subQos_sound` the grant of one of the matching subscriptions — or the queued QoS when no
-    subscription matches any more -/
+    subscription matches any more.  The queued QoS is itself already capped by the grant in force
+    when the copy was queued (`enqueued_copy_capped`; `delivered_capped_by_publish_grant` combines
+    the two) -/
 theorem delivered_qos (s s' : BState) (c : ConnId) (x : BConn) (b : BSess) (m : Message) (id : UInt16)
     (h : acceptDelivery s c x b m id = some s') :
     ∃ hd, (b.storedQ.head? = some hd ∨
@@ -250,10 +270,11 @@ theorem recv_unsubscribe_subs (s : BState) (c : ConnId) (x : BConn) (b : BSess) 
 
 /-! ### one publish seen from one session -/
 
-/-- exactly one copy of `m` was appended to the queue of its class, nothing else changed -/
+/-- exactly one copy of `m` — capped by the grant of `b`, the session at that moment — was appended
+    to the queue of the class of `m` (its published QoS), nothing else changed -/
 def OneCopy (g : Nat) (m : Message) (b b' : BSess) : Prop :=
-  (if m.qos = 0 then b'.tempQ = b.tempQ ++ [(g, m)] ∧ b'.storedQ = b.storedQ
-   else b'.storedQ = b.storedQ ++ [m] ∧ b'.tempQ = b.tempQ)
+  (if m.qos = 0 then b'.tempQ = b.tempQ ++ [(g, applyQOS b m)] ∧ b'.storedQ = b.storedQ
+   else b'.storedQ = b.storedQ ++ [applyQOS b m] ∧ b'.tempQ = b.tempQ)
   ∧ b'.subs = b.subs ∧ b'.sess = b.sess ∧ b'.active = b.active
 
 /-- a stored session (online or offline) across `Backend.Publish` -/
@@ -315,8 +336,9 @@ theorem no_match_no_copy (s s' : BState) (c : ConnId) (m : Message) (h : backend
     simp only [this, Option.isSome_none, Bool.false_eq_true, if_false] at h2
     rw [h1, h2]
 
-/-- a session with a matching subscription gets exactly one copy — topic, payload, QoS of the
-    publish, retain flag cleared — or, if it is offline and its queue is full, nothing -/
+/-- a session with a matching subscription gets exactly one copy — topic and payload of the
+    publish, retain flag cleared, QoS capped by the session's grant (`enqueued_copy_capped`) — or,
+    if it is offline and its queue is full, nothing -/
 theorem match_one_copy (s s' : BState) (c : ConnId) (m : Message) (h : backendPublish s c m = .ok s')
     (c' : ConnId) (b : BSess) (hb : s.sessOf c' = some b) (hs : (subQos b m.topic).isSome) :
     ∃ b', s'.sessOf c' = some b' ∧
@@ -329,6 +351,168 @@ theorem match_one_copy (s s' : BState) (c : ConnId) (m : Message) (h : backendPu
   rcases h2 with h2 | ⟨h2, h3, h4⟩
   · exact Or.inl (enqueue_one_copy _ _ _ _ _ h2)
   · exact Or.inr ⟨h4, h3, h2⟩
+
+/-! ### the cap at enqueue time (`queue(sess) <- sess.applyQOS(msg)`) -/
+
+/-- `cp` is a copy of the publish `m` capped by the grant `q`: QoS = min(published, granted), topic
+    and payload intact, retain flag cleared -/
+def CappedCopy (m : Message) (q : Nat) (cp : Message) : Prop :=
+  cp.qos.toNat = min m.qos.toNat q ∧ cp.topic = m.topic ∧ cp.payload = m.payload ∧ cp.retain = false
+
+/-- the copy `Backend.Publish` makes for a session whose `MatchFirst` grant is `q` -/
+theorem applyQOS_cappedCopy (b : BSess) (m : Message) (q : Nat) (hq : subQos b m.topic = some q) :
+    CappedCopy m q (applyQOS b { m with retain := false }) := by
+  obtain ⟨a1, a2, a3, a4⟩ := applyQOS_min b { m with retain := false } q hq
+  exact ⟨a1, a2, a3, a4⟩
+
+/-- session `b` became `b'` by getting exactly the message `cp` appended to the queue of the class
+    of the publish `m` (its published QoS selects the queue), under group `g`; nothing else changed -/
+def Appended (g : Nat) (m cp : Message) (b b' : BSess) : Prop :=
+  (if m.qos = 0 then b'.tempQ = b.tempQ ++ [(g, cp)] ∧ b'.storedQ = b.storedQ
+   else b'.storedQ = b.storedQ ++ [cp] ∧ b'.tempQ = b.tempQ)
+  ∧ b'.subs = b.subs ∧ b'.sess = b.sess ∧ b'.active = b.active
+
+/-- CAP AT ENQUEUE, a completed publish seen from the session of one connection: if `MatchFirst`
+    finds the grant `q` in the session's tree when the broker processes the publish, the one copy put
+    on its queue has QoS = min(published, q) — in particular ≤ q —, topic and payload intact, retain
+    flag cleared (or nothing is queued: offline and full) -/
+theorem enqueued_copy_capped (s s' : BState) (c : ConnId) (m : Message) (h : backendPublish s c m = .ok s')
+    (c' : ConnId) (b : BSess) (hb : s.sessOf c' = some b) (q : Nat) (hq : subQos b m.topic = some q) :
+    ∃ b', s'.sessOf c' = some b' ∧
+      ((∃ cp, Appended s.nextGroup m cp b b' ∧ CappedCopy m q cp ∧ cp = applyQOS b { m with retain := false }) ∨
+       (b' = b ∧ b.active = none ∧ enqueue s.cfg b { m with retain := false } s.nextGroup = .full)) := by
+  obtain ⟨b', h1, h2⟩ := match_one_copy s s' c m h c' b hb (by rw [hq]; rfl)
+  refine ⟨b', h1, ?_⟩
+  rcases h2 with h2 | h2
+  · exact Or.inl ⟨_, h2, applyQOS_cappedCopy b m q hq, rfl⟩
+  · exact Or.inr h2
+
+/-- what a fan-out that got as far as session `b` did to it: nothing (no matching subscription, or
+    no room), or exactly one copy capped by the grant `MatchFirst` finds in `b` -/
+def AppendedCapped (g : Nat) (m : Message) (b b' : BSess) : Prop :=
+  b' = b ∨ ∃ q cp, subQos b m.topic = some q ∧ CappedCopy m q cp ∧ Appended g m cp b b'
+
+theorem fanOne_appendedCapped (cfg : Cfg) (m : Message) (g : Nat) (b : BSess) :
+    AppendedCapped g m b (BrokerB3.fanOne cfg { m with retain := false } g b) := by
+  unfold BrokerB3.fanOne
+  cases hq : subQos b ({ m with retain := false } : Message).topic with
+  | none => exact Or.inl (by simp)
+  | some q =>
+    simp only [Option.isSome_some, if_true]
+    cases he : enqueue cfg b { m with retain := false } g with
+    | full => exact Or.inl rfl
+    | ok b1 =>
+      exact Or.inr ⟨q, _, hq, applyQOS_cappedCopy b m q hq, enqueue_one_copy cfg b b1 _ g he⟩
+
+/-- CAP AT ENQUEUE, every session, every outcome that returns (completed, or stopped at the
+    publisher's own full queue): `Backend.Publish` changes a stored / temporary session by at most
+    one appended message, and that message is a copy of the publish capped by the grant `MatchFirst`
+    finds in that session at that moment.  Nothing with a higher QoS is ever put on a queue. -/
+theorem publish_appends_only_capped (s s' : BState) (c : ConnId) (m : Message)
+    (h : backendPublish s c m = .ok s' ∨ backendPublish s c m = .queueFull s') :
+    (∀ k b, Assoc.get s.stored k = some b →
+      ∃ b', Assoc.get s'.stored k = some b' ∧ AppendedCapped s.nextGroup m b b') ∧
+    (∀ k b, Assoc.get s.temp k = some b →
+      ∃ b', Assoc.get s'.temp k = some b' ∧ AppendedCapped s.nextGroup m b b') := by
+  have key : ∃ temp' stored', s' = { BrokerB3.pubPre s c m with temp := temp', stored := stored' } ∧
+      BrokerB3.FanPrefix s.cfg { m with retain := false } s.nextGroup s.temp temp' ∧
+      BrokerB3.FanPrefix s.cfg { m with retain := false } s.nextGroup s.stored stored' := by
+    rcases h with h | h
+    · obtain ⟨t, st, e, f1, f2, _⟩ := BrokerB3.backendPublish_cases (full := false) h
+      exact ⟨t, st, e, f1, f2⟩
+    · obtain ⟨t, st, e, f1, f2, _⟩ := BrokerB3.backendPublish_cases (full := true) h
+      exact ⟨t, st, e, f1, f2⟩
+  obtain ⟨temp', stored', rfl, f1, f2⟩ := key
+  refine ⟨?_, ?_⟩
+  · intro k b hg
+    rcases f2.get k with e | e
+    · exact ⟨b, by show Assoc.get stored' k = some b; rw [e, hg], Or.inl rfl⟩
+    · exact ⟨_, by show Assoc.get stored' k = some _; rw [e, hg]; rfl, fanOne_appendedCapped _ _ _ _⟩
+  · intro k b hg
+    rcases f1.get k with e | e
+    · exact ⟨b, by show Assoc.get temp' k = some b; rw [e, hg], Or.inl rfl⟩
+    · exact ⟨_, by show Assoc.get temp' k = some _; rw [e, hg]; rfl, fanOne_appendedCapped _ _ _ _⟩
+
+/-! ### both caps together: what is delivered is bounded by the grant at PUBLISH time -/
+
+/-- A copy capped at enqueue stays capped: let `cp` be the copy queued for a session whose tree was
+    `b₀.subs` and granted `q` when the broker processed the publish `m₀`; whatever the session's
+    subscriptions are when the copy is taken off the queue (`b` is ANY session state: the filter
+    may have been removed, replaced by a higher or a lower grant, …), what goes out has
+    QoS ≤ min(published, q), topic and payload of the publish, retain flag cleared. -/
+theorem capped_at_enqueue_stays_capped (b₀ b : BSess) (m₀ : Message) (q : Nat)
+    (hq : subQos b₀ m₀.topic = some q) :
+    (applyQOS b (applyQOS b₀ { m₀ with retain := false })).qos.toNat ≤ min m₀.qos.toNat q ∧
+    (applyQOS b (applyQOS b₀ { m₀ with retain := false })).topic = m₀.topic ∧
+    (applyQOS b (applyQOS b₀ { m₀ with retain := false })).payload = m₀.payload ∧
+    (applyQOS b (applyQOS b₀ { m₀ with retain := false })).retain = false := by
+  obtain ⟨c1, c2, c3, c4⟩ := applyQOS_cappedCopy b₀ m₀ q hq
+  obtain ⟨d1, d2, d3, d4⟩ := applyQOS_le b (applyQOS b₀ { m₀ with retain := false })
+  exact ⟨by rw [← c1]; exact d1, d2.trans c2, d3.trans c3, d4.trans c4⟩
+
+/-- the delivered message never has a higher QoS than the queue entry it was made from —
+    unconditionally (no hypothesis on the subscriptions in force at delivery time) -/
+theorem delivered_le_queued (s s' : BState) (c : ConnId) (x : BConn) (b : BSess) (m : Message) (id : UInt16)
+    (h : acceptDelivery s c x b m id = some s') :
+    ∃ hd, (b.storedQ.head? = some hd ∨
+           ∃ g, (b.tempQ.head?.map (·.1)) = some g ∧ (g, hd) ∈ b.tempQ.takeWhile (·.1 = g)) ∧
+      m = applyQOS b hd ∧
+      m.qos.toNat ≤ hd.qos.toNat ∧ m.topic = hd.topic ∧ m.payload = hd.payload ∧ m.retain = hd.retain := by
+  obtain ⟨hd, h1, h2⟩ := delivery_is_capped_head s s' c x b m id h
+  subst h2
+  exact ⟨hd, h1, rfl, applyQOS_le b hd⟩
+
+/-- END TO END: the dequeuer delivers `m` made from the queue entry `hd`.  If `hd` is the copy that
+    `Backend.Publish` queued for this session on account of the publish `m₀` when the session's tree
+    (`b₀`, any earlier state of the session) granted `q` (`enqueued_copy_capped` /
+    `publish_appends_only_capped`: every entry a publish puts on a queue is of this form), then the
+    delivered QoS is ≤ min(published, q) — the grant in force when the broker processed the publish
+    — with topic and payload of the publish and the retain flag cleared: NO MATTER how the
+    subscriptions changed in between (`b`, the session now, is not related to `b₀` in any way). -/
+theorem delivered_capped_by_publish_grant (s s' : BState) (c : ConnId) (x : BConn) (b : BSess)
+    (m : Message) (id : UInt16) (h : acceptDelivery s c x b m id = some s') :
+    ∃ hd, (b.storedQ.head? = some hd ∨
+           ∃ g, (b.tempQ.head?.map (·.1)) = some g ∧ (g, hd) ∈ b.tempQ.takeWhile (·.1 = g)) ∧
+      m.qos.toNat ≤ hd.qos.toNat ∧
+      ∀ (b₀ : BSess) (m₀ : Message) (q : Nat), subQos b₀ m₀.topic = some q →
+        hd = applyQOS b₀ { m₀ with retain := false } →
+        m.qos.toNat ≤ min m₀.qos.toNat q ∧ m.topic = m₀.topic ∧ m.payload = m₀.payload ∧ m.retain = false := by
+  obtain ⟨hd, h1, h2, h3, _⟩ := delivered_le_queued s s' c x b m id h
+  refine ⟨hd, h1, h3, ?_⟩
+  intro b₀ m₀ q hq he
+  subst h2; subst he
+  exact capped_at_enqueue_stays_capped b₀ b m₀ q hq
+
+/-- the same for the dying dequeuer (`lastDequeue` inside `kill`): what it records as outgoing is
+    `applyQOS` of the entry it popped, hence bounded in the same way -/
+theorem lastDequeue_capped_by_publish_grant {s : BState} {c : ConnId} {x : BConn} {s1 : BState}
+    (h : s1 ∈ lastDequeue s c x) :
+    s1 = s ∨ ∃ b hd bq, s.sessOf c = some b ∧
+      (b.storedQ.head? = some hd ∨
+       ∃ g, (b.tempQ.head?.map (·.1)) = some g ∧ (g, hd) ∈ b.tempQ.takeWhile (·.1 = g)) ∧
+      s1 = BrokerB3.lastTake s c bq (applyQOS b hd) ∧
+      ∀ (b₀ : BSess) (m₀ : Message) (q : Nat), subQos b₀ m₀.topic = some q →
+        hd = applyQOS b₀ { m₀ with retain := false } →
+        (applyQOS b hd).qos.toNat ≤ min m₀.qos.toNat q := by
+  rcases BrokerB3.lastDequeue_cases h with h | ⟨_, _, b, out, bq, hb, hp, e⟩
+  · exact Or.inl h
+  · right
+    cases hp with
+    | stored hd rest hq ho =>
+      subst ho
+      refine ⟨b, hd, _, hb, Or.inl (by rw [hq]; rfl), e, ?_⟩
+      intro b₀ m₀ q h0 he; subst he
+      exact (capped_at_enqueue_stays_capped b₀ b m₀ q h0).1
+    | temp g m0 tl en hq hm ho =>
+      subst ho
+      refine ⟨b, en.2, _, hb, Or.inr ⟨g, by rw [hq]; rfl, ?_⟩, e, ?_⟩
+      · have hg : en.1 = g := by
+          simpa using List.all_eq_true.1
+            (List.all_takeWhile (l := b.tempQ) (p := fun e => decide (e.1 = g))) en hm
+        have : (g, en.2) = en := by rw [← hg]
+        rw [this]; exact hm
+      · intro b₀ m₀ q h0 he; rw [he]
+        exact (capped_at_enqueue_stays_capped b₀ b m₀ q h0).1
 
 /-- overlapping subscriptions: a session holding several filters that all match still gets one
     copy — its queues grow by exactly one entry (or by none: offline and full) -/
@@ -407,6 +591,34 @@ example : ∃ s', acceptDelivery
     0 { phase := .connected, sref := .temp, running := true, deqHand := true }
     { subs := exSubs, active := some 0, tempQ := [(0, ⟨[97, 47, 98], [1], 0, false⟩)] }
     ⟨[97, 47, 98], [1], 0, false⟩ 0 = some s' := ⟨_, rfl⟩
+
+/-- cap at enqueue, concretely: the retained QoS-1 publish to "a/b" is queued for connection 0 —
+    whose `MatchFirst` grant is 0 ("a/#" @ 0 wins over "a/+" @ 1) — on the STORED queue (published
+    QoS 1) as a QoS-0 copy with the retain flag cleared -/
+def exCopy : Message := ⟨[97, 47, 98], [1], 0, false⟩
+example : ∃ s', backendPublish exState 1 exMsg = .ok s' ∧
+    s'.sessOf 0 = some { subs := exSubs, active := some 0, storedQ := [exCopy] } := ⟨_, rfl, rfl⟩
+example : CappedCopy exMsg 0 exCopy := by unfold CappedCopy; decide
+example : Appended exState.nextGroup exMsg exCopy { subs := exSubs, active := some 0 }
+    { subs := exSubs, active := some 0, storedQ := [exCopy] } := by
+  refine ⟨?_, rfl, rfl, rfl⟩
+  rw [if_neg (by decide)]
+  exact ⟨rfl, rfl⟩
+/-- … and stays capped: after the subscriptions have been removed (empty tree) the dequeuer of
+    connection 0 delivers the QoS-0 copy (packet id 0), NOT a QoS-1 message as published -/
+example : ∃ s', acceptDelivery
+    { exState with temp := [(0, { active := some 0, storedQ := [exCopy] })] }
+    0 { phase := .connected, sref := .temp, running := true, deqHand := true }
+    { active := some 0, storedQ := [exCopy] } exCopy 0 = some s' := ⟨_, rfl⟩
+example : ∀ id, acceptDelivery
+    { exState with temp := [(0, { active := some 0, storedQ := [exCopy] })] }
+    0 { phase := .connected, sref := .temp, running := true, deqHand := true }
+    { active := some 0, storedQ := [exCopy] } { exMsg with retain := false } id = none := by
+  intro id; rfl
+/-- the hypotheses of `delivered_capped_by_publish_grant`'s inner implication are satisfiable:
+    `exCopy` is the copy made for a session granting 0 -/
+example : subQos { subs := exSubs, active := some 0 } exMsg.topic = some 0 ∧
+    exCopy = applyQOS { subs := exSubs, active := some 0 } { exMsg with retain := false } := by decide
 
 /-- the hypotheses of `recv_subscribe_subs` hold in a REACHABLE state: connection 0 after CONNECT -/
 example : ∃ s x b, Reachable {} s ∧ s.conn? 0 = some x ∧ x.alive = true ∧ x.phase = .connected ∧
